@@ -217,6 +217,7 @@ def upsert_routes(app, routes, routes_path, route, primary_key):
         return
 
     with open(routes_path, "a") as f:
+        f.write("\n\n")
         f.write(
             "\n\n".join(
                 map(
